@@ -9,6 +9,7 @@
 from __future__ import annotations
 
 import ast
+import copy
 from typing import Dict, FrozenSet, List, Optional, Set, Tuple
 
 from .. import flow
@@ -426,6 +427,9 @@ class LinPath:
         self.nodes: List[int] = []
         self.attrs: Dict[str, object] = {}
         self.nulls: Dict[str, bool] = {}  # atom -> known to be None (True) / known not to be None (False) on this path
+        # every branch condition taken on this path, complete: a DNF (list of alternatives, each a list of
+        # (kind, Lin) / ('null', atom, bool) atoms) or None when the test is not one the evaluator reads
+        self.guards: List[Tuple[str, Optional[List[list]]]] = []
 
     def clone(self) -> 'LinPath':
         c = LinPath()
@@ -436,6 +440,7 @@ class LinPath:
         c.nodes = list(self.nodes)
         c.attrs = dict(self.attrs)
         c.nulls = dict(self.nulls)
+        c.guards = list(self.guards)
         return c
 
     def implies_lt0(self, lin: Lin) -> bool:
@@ -523,23 +528,54 @@ class LinExec:
             return
         if k == 'stmt':
             s = node.ast
-            if isinstance(s, (ast.Assign, ast.AnnAssign, ast.Return)) and isinstance(s.value, ast.IfExp):
-                # conditional expression: one path per arm
-                for truth, arm in ((True, s.value.body), (False, s.value.orelse)):
-                    p2 = path.clone()
-                    self._cond(s.value.test, truth, p2)
-                    s2 = ast.copy_location(type(s)(**{**{f: getattr(s, f) for f in s._fields}, 'value': arm}), s)
-                    done = self._stmt(s2, p2)
-                    if done:
-                        self.paths.append(p2)
-                    else:
-                        self._continue(nid, p2, onpath, node)
+            if isinstance(s, (ast.Assign, ast.AnnAssign, ast.Return)) and s.value is not None and self._first_ifexp(s.value) is not None:
+                self._split_ifexp(nid, s, path, onpath, node)
                 return
             done = self._stmt(s, path)
             if done:
                 self.paths.append(path)
                 return
         self._continue(nid, path, onpath, node)
+
+    @staticmethod
+    def _first_ifexp(value):
+        """(index in ast.walk order, node) of the outermost-first conditional expression of `value`."""
+        stack_skip = set()
+        for i, x in enumerate(ast.walk(value)):
+            if isinstance(x, (ast.Lambda, ast.ListComp, ast.SetComp, ast.DictComp, ast.GeneratorExp)):
+                stack_skip.update(id(y) for y in ast.walk(x))
+            if isinstance(x, ast.IfExp) and id(x) not in stack_skip:
+                return i, x
+        return None
+
+    def _split_ifexp(self, nid: int, s, path: LinPath, onpath: Set[int], node):
+        """A statement whose value contains `a if c else b` (at any depth): one
+        path per arm, the test recorded as a branch condition of that path."""
+        hit = self._first_ifexp(s.value) if s.value is not None else None
+        if hit is None:
+            if self._stmt(s, path):
+                self.paths.append(path)
+            else:
+                self._continue(nid, path, onpath, node)
+            return
+        idx, ie = hit
+        for truth in (True, False):
+            p2 = path.clone()
+            if ie is s.value:
+                test, arm = ie.test, (ie.body if truth else ie.orelse)
+                s2 = ast.copy_location(type(s)(**{**{f: getattr(s, f) for f in s._fields}, 'value': arm}), s)
+            else:
+                s2 = copy.deepcopy(s)
+                ie2 = list(ast.walk(s2.value))[idx]
+                test, arm = ie2.test, (ie2.body if truth else ie2.orelse)
+
+                class _Swap(ast.NodeTransformer):
+                    def visit_IfExp(self, n):
+                        return arm if n is ie2 else self.generic_visit(n)
+
+                s2.value = _Swap().visit(s2.value)
+            self._cond(test, truth, p2)
+            self._split_ifexp(nid, s2, p2, onpath, node)
 
     def _continue(self, nid: int, path: LinPath, onpath: Set[int], node):
         nxt = [(y, l) for (y, l) in self.cfg.succ[nid] if l != 'exc']
@@ -554,6 +590,7 @@ class LinExec:
     # ---- conditions
     def _cond(self, e, truth: bool, path: LinPath):
         path.raw_conds.append(('%s' if truth else 'not (%s)') % short(e, 80))
+        path.guards.append((path.raw_conds[-1], self._dnf(e, truth, path.clone())))
         if isinstance(e, ast.BoolOp):
             if (isinstance(e.op, ast.And) and truth) or (isinstance(e.op, ast.Or) and not truth):
                 for v in e.values:
@@ -602,6 +639,55 @@ class LinExec:
         if isinstance(v, Lin):
             # truthiness of an integer
             path.conds.append(('ne0', v) if truth else ('eq0', v))
+
+    def _dnf(self, e, truth: bool, scratch: LinPath) -> Optional[List[list]]:
+        """The condition `e is truth` as a disjunction of conjunctions of linear
+        atoms (the complete reading that `conds` lacks for `a or b`); None when
+        some part is not a comparison of linear forms / a None test."""
+        if isinstance(e, ast.UnaryOp) and isinstance(e.op, ast.Not):
+            return self._dnf(e.operand, not truth, scratch)
+        if isinstance(e, ast.BoolOp):
+            parts = [self._dnf(v, truth, scratch) for v in e.values]
+            if any(x is None for x in parts):
+                return None
+            if isinstance(e.op, ast.And) == truth:      # conjunction
+                out = [[]]
+                for alts in parts:
+                    out = [a + b for a in out for b in alts]
+                    if len(out) > 64:
+                        return None
+                return out
+            return [a for alts in parts for a in alts]
+        if isinstance(e, ast.Compare):
+            if len(e.ops) > 1:      # a < b < c  ==  a < b and b < c
+                pairs = []
+                left = e.left
+                for op, right in zip(e.ops, e.comparators):
+                    pairs.append(ast.copy_location(ast.Compare(left=left, ops=[op], comparators=[right]), e))
+                    left = right
+                return self._dnf(ast.copy_location(ast.BoolOp(op=ast.And(), values=pairs), e), truth, scratch)
+            a = self.eval(e.left, scratch)
+            b = self.eval(e.comparators[0], scratch)
+            op = e.ops[0]
+            if isinstance(op, (ast.Is, ast.IsNot, ast.Eq, ast.NotEq)) and (a is NONE) != (b is NONE):
+                other = b if a is NONE else a
+                at = other.single_atom() if isinstance(other, Lin) else None
+                if at is None:
+                    return None
+                return [[('null', at, truth == isinstance(op, (ast.Is, ast.Eq)))]]
+            if not (isinstance(a, Lin) and isinstance(b, Lin)):
+                return None
+            d = a - b
+            table = {ast.Lt: (('lt0', d), ('le0', -d)), ast.LtE: (('le0', d), ('lt0', -d)), ast.Gt: (('lt0', -d), ('le0', d)),
+                     ast.GtE: (('le0', -d), ('lt0', d)), ast.Eq: (('eq0', d), ('ne0', d)), ast.NotEq: (('ne0', d), ('eq0', d))}
+            row = table.get(type(op))
+            if row is None:
+                return None
+            return [[row[0] if truth else row[1]]]
+        v = self.eval(e, scratch) if isinstance(e, (ast.Name, ast.Attribute)) else None
+        if isinstance(v, Lin):
+            return [[('ne0', v) if truth else ('eq0', v)]]
+        return None
 
     # ---- statements
     def _stmt(self, s, path: LinPath) -> bool:
@@ -774,6 +860,125 @@ class LinExec:
         if bt in self.minmax and self.minmax[bt][0] == 'max' and any(x == a for x in self.minmax[bt][1]):
             return True
         return False
+
+
+# ---------------------------------------------------------------------------
+# difference constraints over linear forms (R3, exact range cells)
+# ---------------------------------------------------------------------------
+
+class NotDifference(Exception):
+    """A linear form that is not  c, x + c, -y + c  or  x - y + c."""
+
+
+def lin_subst(lin: Lin, atom: str, repl: Lin) -> Lin:
+    c = lin.t.get(atom, 0)
+    if not c:
+        return lin
+    d = {k: v for k, v in lin.t.items() if k != atom}
+    for k, v in repl.t.items():
+        d[k] = d.get(k, 0) + c * v
+    return Lin(d)
+
+
+def _diff_edge(lin: Lin):
+    """lin <= 0 as (x, y, w) meaning x - y <= w ('' is the zero variable), or a bool for a constant form."""
+    c = lin.t.get('', 0)
+    pos = [k for k, v in lin.t.items() if k != '' and v == 1]
+    neg = [k for k, v in lin.t.items() if k != '' and v == -1]
+    if len(pos) + len(neg) != len([k for k in lin.t if k != '']) or len(pos) > 1 or len(neg) > 1:
+        raise NotDifference(lin.key())
+    if not pos and not neg:
+        return c <= 0
+    return (pos[0] if pos else '', neg[0] if neg else '', -c)
+
+
+def diff_feasible(conds) -> bool:
+    """Is the conjunction of ('lt0'|'le0'|'eq0'|'ne0', lin) / ('null', atom, bool)
+    satisfiable over the integers?  Exact for difference constraints
+    (shortest paths: no negative cycle); NotDifference for any other form."""
+    one = Lin.const(1)
+    nulls: Dict[str, bool] = {}
+    les: List[Lin] = []
+    nes: List[Lin] = []
+    for c in conds:
+        if c[0] == 'null':
+            if nulls.setdefault(c[1], c[2]) != c[2]:
+                return False
+        elif c[0] == 'le0':
+            les.append(c[1])
+        elif c[0] == 'lt0':
+            les.append(c[1] + one)
+        elif c[0] == 'eq0':
+            les.extend([c[1], -c[1]])
+        elif c[0] == 'ne0':
+            nes.append(c[1])
+        else:
+            raise NotDifference(repr(c))
+    if len(nes) > 8:
+        raise NotDifference('%d disequalities' % len(nes))
+
+    def solve(forms) -> bool:
+        edges = []
+        for l in forms:
+            e = _diff_edge(l)
+            if e is False:
+                return False
+            if e is not True:
+                edges.append(e)
+        nodes = {''} | {x for (x, _y, _w) in edges} | {y for (_x, y, _w) in edges}
+        dist = {n: 0 for n in nodes}
+        for _ in range(len(nodes) + 1):
+            changed = False
+            for (x, y, w) in edges:     # x - y <= w: edge y -> x
+                if dist[y] + w < dist[x]:
+                    dist[x] = dist[y] + w
+                    changed = True
+            if not changed:
+                return True
+        return False
+
+    def split(i, forms) -> bool:
+        if i == len(nes):
+            return solve(forms)
+        return split(i + 1, forms + [nes[i] + one]) or split(i + 1, forms + [one - nes[i]])
+
+    return split(0, les)
+
+
+def diff_entails_eq0(conds, lin: Lin) -> bool:
+    """conds (assumed satisfiable) imply lin == 0."""
+    if lin.is_zero():
+        return True
+    return not diff_feasible(list(conds) + [('lt0', lin)]) and not diff_feasible(list(conds) + [('lt0', -lin)])
+
+
+def minmax_cases(minmax, conds, values):
+    """Case split over every min(..)/max(..) atom of `minmax` that occurs in
+    the conditions or values: yields (conds + 'argument i is the extreme one',
+    values with the atom replaced by that argument)."""
+    def atoms_of(cs, vs):
+        for c in cs:
+            if c[0] != 'null':
+                for k in c[1].t:
+                    if k in minmax:
+                        return k
+        for v in vs:
+            for k in v.t:
+                if k in minmax:
+                    return k
+        return None
+
+    at = atoms_of(conds, values)
+    if at is None:
+        yield list(conds), list(values)
+        return
+    kind, args = minmax[at]
+    for i, a in enumerate(args):
+        extra = [('le0', (a - b) if kind == 'min' else (b - a)) for j, b in enumerate(args) if j != i]
+        cs = [c if c[0] == 'null' else (c[0], lin_subst(c[1], at, a)) for c in conds] + extra
+        vs = [lin_subst(v, at, a) for v in values]
+        for out in minmax_cases(minmax, cs, vs):
+            yield out
 
 
 # ---------------------------------------------------------------------------
